@@ -418,6 +418,11 @@ def discharge(site, fx, policy):
             rr = F.strip(r)
             if lv is not None and rr.get("k") == "Binary" and rr["op"] == "Rem" and int_lit(rr["r"]) == lv and lv > 0:
                 return "D-sub-rem: %d - (e %% %d) is in 1..=%d" % (lv, lv, lv)
+            # N - r with a proven upper bound of r (r bound from `e % N`, through a let, a match binding or an if/match value)
+            if lv is not None and (site.ty or "").startswith("u"):
+                ub = upper_bound(r, fam)
+                if ub is not None and ub <= lv:
+                    return "D-sub-bound: %d - r with r <= %d" % (lv, ub)
             # len(x) - b  with dominating starts_with/ends_with recipe
             rec = recipe_prefix_suffix(l, r, None, get_facts())
             if rec:
@@ -479,6 +484,10 @@ def discharge(site, fx, policy):
                     d = int_lit(bv["r"])
                     if d is not None and 0 < d <= int(m.group(1)):
                         return "D-rem-bound: end = e %% %d <= array length %s" % (d, m.group(1))
+                if m and rng["adt"].endswith("RangeTo"):
+                    ub = upper_bound(bound, fam)
+                    if ub is not None and ub <= int(m.group(1)):
+                        return "D-range-bound: end <= %d <= array length %s (value-range of the bound)" % (ub, m.group(1))
                 return None
             if rng.get("k") == "Adt" and rng["adt"].endswith("::Range"):
                 fs = {f["name"]: f["e"] for f in rng["fields"]}
@@ -677,6 +686,52 @@ def pos_over_same(x, pos, fam, depth=0):
         # the sequence binding must not change between the search and the slice
         return None
     return "split point is the payload of position()/binary_search over the same (unmodified) sequence"
+
+
+def upper_bound(n, fam, depth=0):
+    """a proven inclusive upper bound of an unsigned integer expression, or None. Understands literals, `e % N`, `N - r`
+    (with r <= N), if/match values, and variables bound once by `let`, or bound by a match-arm pattern to the scrutinee."""
+    if depth > 6:
+        return None
+    n = FL.peel(n)
+    v = int_lit(n)
+    if v is not None:
+        return v if v >= 0 else None
+    k = n.get("k")
+    if k == "Binary" and n["op"] == "Rem":
+        d = int_lit(n["r"])
+        return d - 1 if d is not None and d > 0 else None
+    if k == "Binary" and n["op"] == "Sub":
+        a = int_lit(n["l"])
+        b = upper_bound(n["r"], fam, depth + 1)
+        return a if a is not None and b is not None and b <= a else None
+    if k == "If" and n.get("else") is not None:
+        x, y = upper_bound(n["then"], fam, depth + 1), upper_bound(n["else"], fam, depth + 1)
+        return max(x, y) if x is not None and y is not None else None
+    if k == "Match" and FL.try_operand(n) is None:
+        bs = [upper_bound(a_["body"], fam, depth + 1) for a_ in n["arms"]]
+        return max(bs) if bs and all(b_ is not None for b_ in bs) else None
+    if k == "Block" and n.get("tail") is not None and not n["stmts"]:
+        return upper_bound(n["tail"], fam, depth + 1)
+    if k in ("Var", "Upvar"):
+        if fam.origins.is_reassigned(n["id"]):
+            return None
+        srcs = fam.origins.sources(n["id"])
+        if not srcs:
+            return None
+        out = []
+        for path, expr, how in srcs:
+            if expr is None or path != () or how not in ("let", "match", "iflet"):
+                return None
+            # `let x = e` or a match-arm binding pattern `x => ..` over scrutinee e: x is (a value of) e
+            b_ = upper_bound(expr, fam, depth + 1)
+            if b_ is None:
+                return None
+            out.append(b_)
+        return max(out)
+    if k == "Cast":
+        return upper_bound(n["e"], fam, depth + 1)
+    return None
 
 
 def str_lit(n):
